@@ -84,3 +84,71 @@ Theorem assembled_has_confirmations :
     exists conf, q_conf t0 x = Some conf /\ (required <= conf)%Z.
 Proof. exact Proofs.C31.assembled_has_confirmations. Qed.
 Print Assumptions assembled_has_confirmations.
+
+(* 3. The oracle assumptions are what an honest server over a GROWING chain provides.  For
+   every hash function with 32-byte outputs, every chain built from raw blocks (each with at
+   least its coinbase; header roots and previous-hashes computed by Bitcoin's rules, odd Merkle
+   levels repeating their last node), and EVERY visibility schedule [vis] (query number t sees
+   the first [vis t] blocks: any growth between any two queries), a proof assembled against
+   that server is accepted by the verifier, its first header is the header of a block of the
+   chain that contains the transaction at the stated index. *)
+Theorem honest_assemble_sound :
+  forall (sha256 : bytes -> bytes),
+    (forall b, length (sha256 b) = 32%nat) ->
+    forall (prev0 : bytes) (raws : list raw_block) (vis : nat -> nat),
+      length prev0 = 32%nat ->
+      Forall (fun rb => rb_txs rb <> []) raws ->
+      (Z.of_nat (length raws) < 2 ^ 63)%Z ->
+      forall (t0 : nat) (x : bytes) (required : Z) (p : proof),
+        (1 <= required < 2 ^ 63)%Z ->
+        honest_assemble sha256 (build sha256 prev0 raws) vis t0 x required = Assembled p ->
+        verify sha256 x required p = true /\
+        exists (i : Z) (b : block) (rest : bytes),
+          nth_error (build sha256 prev0 raws) (Z.to_nat i) = Some b /\ (0 <= i)%Z /\
+          nth_error (b_ids b) (Z.to_nat (p_index p)) = Some x /\
+          p_headers p = ser_header (b_hdr b) ++ rest.
+Proof. exact Proofs.C31.honest_assemble_sound. Qed.
+Print Assumptions honest_assemble_sound.
+
+(* 4. Merkle branches: for every list of leaves and every position, hashing the leaf with the
+   siblings of [branch] along the bits of the position gives the Merkle root and consumes
+   every bit of the position (so the path length is the tree depth, ceil(log2 size)) *)
+Theorem merkle_branch_correct :
+  forall (sha256 : bytes -> bytes),
+    (forall b, length (sha256 b) = 32%nat) ->
+    forall (l : list bytes) (p : nat),
+      (p < length l)%nat ->
+      merkle_fold sha256 (nth p l []) (branch sha256 p l) (Z.of_nat p) = (merkle_root sha256 l, 0%Z).
+Proof.
+  intros sha256 H l p Hp. exact (Proofs.C31.branch_fold sha256 H (length l) l p Hp (le_n _)).
+Qed.
+Print Assumptions merkle_branch_correct.
+
+(* 5. the executable verifier is sound for the Prop reading of the property: required >= 1
+   headers of 80 bytes, the Merkle path leads from the transaction hash to the first header's
+   root along the bits of the stated index (all consumed), the coinbase preimage hashes to a
+   leaf that leads to the same root at position 0 through a path of the same length, and every
+   header's previous-hash field is the double SHA-256 of the header before it *)
+Theorem verify_sound :
+  forall (sha256 : bytes -> bytes) (x : bytes) (required : Z) (p : proof),
+    verify sha256 x required p = true ->
+    (1 <= required)%Z /\ Z.of_nat (length (p_headers p)) = (80 * required)%Z /\
+    exists h0 rest,
+      chunks 80 (p_headers p) = h0 :: rest /\
+      (0 <= p_index p)%Z /\
+      merkle_fold sha256 x (chunks 32 (p_merkle p)) (p_index p) = (hdr_root h0, 0%Z) /\
+      merkle_fold sha256 (sha256 (p_cb_preimage p)) (chunks 32 (p_cb_proof p)) 0 = (hdr_root h0, 0%Z) /\
+      length (p_merkle p) = length (p_cb_proof p) /\
+      linked_prop sha256 (h0 :: rest).
+Proof. exact Proofs.C31.verify_sound. Qed.
+Print Assumptions verify_sound.
+
+(* 6. ... and it holds of every proof the per-run model ([Concrete.run]: the honest server with
+   the case's chain shape and growth schedule) produces *)
+Theorem concrete_run_verifies :
+  forall (c : case) (p : proof),
+    Concrete.well_formed c = true -> (1 <= c_required c)%Z ->
+    Concrete.run c = Assembled p ->
+    verify Concrete.toy (Concrete.txid_of c) (c_required c) p = true.
+Proof. exact Proofs.C31.concrete_run_verifies. Qed.
+Print Assumptions concrete_run_verifies.
